@@ -149,6 +149,13 @@ theorem apply_idempotent_resume (idOf : Nat → Id) (app : Nat → Val) (s : Sto
   have b := apply_any_schedule idOf app s inputs sel hsel results hperm
   exact ⟨fun p hp => (a.1 p hp).trans (b.1 p hp).symm, a.2⟩
 
+-- (auditor) non-vacuity of `apply_idempotent_resume`: all its hypotheses instantiated
+def exApp : Nat → Val := fun m => if m = 22 then .nc ⟨.error, 2, .exc 1, some 22⟩ else .ok ⟨1, m, some m⟩
+-- an interrupted run: three inputs, results arrive as 33, 22 (fails), 11; killed after two results; re-run in another order
+example := apply_idempotent_resume (fun m => m % 10) exApp [] [11, 22, 33] [(1, 11), (2, 22), (3, 33)] (by decide)
+    [(33, exApp 33), (22, exApp 22), (11, exApp 11)] (by decide) 2
+    [(1, 11), (2, 22)] (by decide) [(22, exApp 22), (11, exApp 11)] (by decide)
+
 /-! ### (auditor) directory stores vs SQLite stores: which stored records make `_apply_to` skip an input -/
 
 /-- `select` (all theorems above) is `selectBy` with the directory-store membership test `hasDone` -/
